@@ -13,7 +13,7 @@ import networkx as nx
 from ..model import src
 from ..report import Report, key_of
 from ..types import Ctx
-from .common import TRUSTED_BASE, cfg_nodes_for, normal_succ, where
+from .common import TRUSTED_BASE, cfg_nodes_for, inl, normal_succ, owner_of, where
 
 
 def run(A, R: Report, thorough: bool):
@@ -27,12 +27,12 @@ def run(A, R: Report, thorough: bool):
 
     # ---- R18.1
     R.rule('R18.1', 'a log handler acquired in Task.data and attached with addHandler is detached with removeHandler on every path to any exit', floor=1)
-    adds = [n for n in A.typer.own_nodes(fdata) if isinstance(n, ast.Call) and isinstance(n.func, ast.Attribute) and n.func.attr == 'addHandler' and n.args]
+    adds = [n for n in inl(A, fdata) if isinstance(n, ast.Call) and isinstance(n.func, ast.Attribute) and n.func.attr == 'addHandler' and n.args]
     local_adds = []
     for a in adds:
         arg = a.args[0]
         if isinstance(arg, ast.Name):
-            defs = A.sym._local_defs(fdata).get(arg.id, [])
+            defs = A.sym._local_defs(owner_of(A, fdata, a)).get(arg.id, [])
             if any(k == 'assign' and isinstance(v, ast.Call) for k, v in defs):
                 local_adds.append((a, arg.id))
         elif isinstance(arg, ast.Call):
@@ -69,7 +69,7 @@ def run(A, R: Report, thorough: bool):
     R.rule('R18.2', '_init_run_info() dominates run(); _finish_run_info() is dominated by result processing and unreachable from its exception edges', floor=2)
 
     def self_calls(name):
-        return [n for n in A.typer.own_nodes(fdata) if isinstance(n, ast.Call) and isinstance(n.func, ast.Attribute) and n.func.attr == name
+        return [n for n in inl(A, fdata) if isinstance(n, ast.Call) and isinstance(n.func, ast.Attribute) and n.func.attr == name
                 and isinstance(n.func.value, ast.Name) and n.func.value.id == 'self']
 
     inits, runs, procs, fins = self_calls('_init_run_info'), self_calls('run'), self_calls('_process_run_result'), self_calls('_finish_run_info')
